@@ -16,7 +16,7 @@ def run(v):
         return
     out = os.path.join(C.WORK, PID)
     n = 60 if v.tier == "quick" else 1500
-    stats = F.gen(v, PID, out, "upload,compact", n)
+    stats = F.gen(v, PID, out, "upload,compact,behind", n)
     if stats is None:
         return
     cases = os.path.join(out, "cases.txt")
@@ -42,11 +42,19 @@ def run(v):
                 "unchanged and nothing new (except fail-after), levels gap-free, Restore = source image; model entry "
                 "compact_run (Faults/Compact.v) and oracle compact_inv_ok; plus a stale-cache scenario (fail-after, more "
                 "writes, L1 and L2 compaction). "
+                "(Re)open: start states {in step, meta dir lost, older checkpointed db file, both, newest local L0 file lost} over a replica 1..6 x a "
+                "fault on each of the first 4 (7 thorough) level-0 client calls of the first SyncAndWait (init's listing and "
+                "baseline OpenLTXFile, Replica.Sync's listing and writes: fail-before / error mid-stream / short read or "
+                "fail-after) x {1,2} consecutive, then a fault-free suffix of commits, SyncAndWait calls and Close; after every "
+                "nil: SyncStatus local == remote, remote advanced if the source changed, Restore = source image, remote L0 "
+                "gapless; after faults stop at most one more failure; model entry behind_run (Faults/Behind.v) and oracle "
+                "behind_inv_ok. "
                 "non-trivial = at least one fault was injected. distinct = distinct (entry, input).",
         "samples": stats["samples"],
         "input_distribution": stats["classes"],
         "restores_compared_with_source": stats.get("extra", {}).get("upload_restores"),
         "compaction_attempts": stats.get("extra", {}).get("compaction_attempts"),
+        "reopen_histories": stats.get("extra", {}).get("behind_histories"),
         "stale_cache_levels": stats.get("extra", {}).get("stale_cache_levels"),
         "model_mismatches": len(mism),
         "runner_errors": errors[:5],
@@ -59,10 +67,27 @@ def run(v):
         if steps:
             rp["case_lines"] = ["upload_run\t(%s)\t()" % steps]
         else:
-            rp.update({"part": "compact", "n": n})
+            rp.update({"part": "behind" if "start" in rp else "compact", "n": n})
         v.violation(iv["signature"], iv["detail"], rp, True)
     inv_bad = [m for m in mism if m["entry"] == "upload_inv_ok"]
     run_bad = [m for m in mism if m["entry"] == "upload_run"]
+    binv_bad = [m for m in mism if m["entry"] == "behind_inv_ok"]
+    brun_bad = [m for m in mism if m["entry"] == "behind_run"]
+    if binv_bad and not any(iv["signature"].startswith("C05/ack") or "restore-differs" in iv["signature"]
+                            for iv in stats.get("impl_violations", [])):
+        m = binv_bad[0]
+        v.violation("C05/ack-not-in-sync-after-reopen",
+                    "an acknowledged SyncAndWait after a (re)open breaks behind_inv_ok (%d histories): %s" % (len(binv_bad), m["case"][:1500]),
+                    {"case_lines": [m["case"]], "part": "behind", "n": n}, True)
+    if brun_bad:
+        m = brun_bad[0]
+        v.violation("C05/model-mismatch:behind_run",
+                    "DB.init/checkDatabaseBehindReplica + SyncAndWait and the model Faults/Behind.v disagree on %d histories "
+                    "(error class, position or the client calls made, e.g. an error of init's listing that does not surface)"
+                    % len(brun_bad),
+                    {"theorem_or_correspondence": "correspondence behind_run (Faults/Behind.v vs db.go checkDatabaseBehindReplica/init)",
+                     "case_lines": [m["case"]], "model_says": m["model"][:2000], "part": "behind", "n": n},
+                    bool(binv_bad) or any(iv["signature"].startswith("C05/ack") for iv in stats.get("impl_violations", [])))
     cinv_bad = [m for m in mism if m["entry"] == "compact_inv_ok"]
     crun_bad = [m for m in mism if m["entry"] == "compact_run"]
     if cinv_bad and not any(iv["signature"].startswith("C05/compaction") or "compaction" in iv["signature"]
